@@ -14,7 +14,7 @@ PROP = 'C06'
 TITLE = 'regexp -> NFA and DFA -> regexp'
 SHARDS = {'quick': 8, 'thorough': 32}
 TIMEOUT = {'quick': 600, 'thorough': 3000}
-REQUIRED = ['regexp_to_nfa', 'dfa_to_regexp', 'gnfa_elimination_order']
+REQUIRED = ['regexp_to_nfa', 'dfa_to_regexp']          # the elimination-order probe is auxiliary (depends on local variable names)
 EXHAUSTIVE_NOTE = 'all expression trees with <=6 nodes (regexp->NFA) and all total DFAs with <=3 states over <=2 symbols (DFA->regexp)'
 RULE = ('regexp->NFA: enumerated trees <=6 nodes + random deep trees; DFA->regexp: enumerated DFAs <=3 states + random <=5 states (<=6 thorough) + isomorphic '
         'copies with random names, each shard under its own PYTHONHASHSEED; the elimination order is read from inside gnfa_minimize by a LINE hook. '
